@@ -262,7 +262,7 @@ Section ParseState.
   Theorem library_readback_here m s :
     state_ok s = true -> nums_clean num_text s -> (forall x, In x (values s) -> num_ok num_text parse_num x) ->
     parseable s ->
-    exists e s', parse m (s2t (serialize num_text s)) = Ok (SList (Atom (head_tok s) :: e)) /\
+    exists e s', parse m (s2t (serialize_in_order num_text s)) = Ok (SList (Atom (head_tok s) :: e)) /\
                  parse_state dom parse_num problem e = Ok s' /\ State_same (den s') (den s).
   Proof.
     intros Hs Hc Hn Hp. destruct (parse_state_items s Hs Hn Hp) as (s' & P & _ & S).
@@ -274,7 +274,7 @@ End ParseState.
 Lemma library_readback dom num_text parse_num problem m s :
   state_ok s = true -> nums_clean num_text s -> (forall x, In x (values s) -> num_ok num_text parse_num x) ->
   parseable dom problem s ->
-  exists e s', parse m (s2t (serialize num_text s)) = Ok (SList (Atom (head_tok s) :: e)) /\
+  exists e s', parse m (s2t (serialize_in_order num_text s)) = Ok (SList (Atom (head_tok s) :: e)) /\
                parse_state dom parse_num problem e = Ok s' /\ State_same (den s') (den s).
 Proof. apply library_readback_here. Qed.
 
